@@ -142,7 +142,9 @@ func bodyOfPayload(p []byte) int {
 	}
 	return int(binary.BigEndian.Uint32(p[8:]))
 }
-func emAddr(em int) ethcommon.Address { return ethcommon.BytesToAddress([]byte{0xEE, byte(em >> 8), byte(em)}) }
+func emAddr(em int) ethcommon.Address {
+	return ethcommon.BytesToAddress([]byte{0xEE, byte(em >> 8), byte(em)})
+}
 
 func (l *simLog) ethLog(bh int, block uint64, idx uint) *types.Log {
 	ev := evmABI.Events["LogMessagePublished"]
@@ -190,16 +192,17 @@ type scanRec struct {
 }
 
 type evmSim struct {
-	mu       sync.Mutex
-	head     uint64
-	headHash ethcommon.Hash
-	rcpts    map[int]*simRcpt // by tx id; absent = not found
-	rcptErr  map[int]bool
-	rcptErrA bool
-	bbhErr   map[int]bool
-	pollFail int
-	pollFailAll bool
-	bumpOnRcpt  map[int]uint64
+	mu            sync.Mutex
+	head          uint64
+	headHash      ethcommon.Hash
+	rcpts         map[int]*simRcpt // by tx id; absent = not found
+	rcptErr       map[int]bool
+	rcptErrA      bool
+	bbhErr        map[int]bool
+	pollFail      int
+	pollFailAll   bool
+	finalizedMode bool // the watcher is configured for a chain read at finalized height
+	bumpOnRcpt    map[int]uint64
 
 	notifier *rpc.Notifier
 	subID    rpc.ID
@@ -240,6 +243,11 @@ func (s *evmSim) GetBlockByNumber(ctx context.Context, num string, full bool) (m
 		s.pollFail--
 		s.pollsFailed++
 		return nil, errInjected
+	}
+	if s.finalizedMode && num == "latest" {
+		// a chain that is read at finalized height: the tip is far ahead of what is final; s.head is the FINALIZED head
+		tip := s.head + 64
+		return map[string]interface{}{"number": hexutil.EncodeUint64(tip), "hash": hID(kindHead, tip)}, nil
 	}
 	return map[string]interface{}{"number": hexutil.EncodeUint64(s.head), "hash": s.headHash}, nil
 }
